@@ -266,27 +266,17 @@ def rule_r3_update(ck, prog, cls='trace::TraceState', rule='C14.R3', api='KeyVal
         ck.violation(rule, f, 'Set:update-never-refused', first[0].n,
                      'Set does not look the key up: it cannot tell an update from an insertion (an update on a full list is refused, or the old entry is duplicated)')
         return
+    # with the key present (lookup true) and key/value valid, no feasible path reaches a return without having inserted the pair
+    from ..symb import feasible_reach
     pins = {lookups[0]['i']: True}
-    # conditions on the path to the insertion
-    conds = []
-    for p in g.points:
-        for (q, lab) in p.succ:
-            if lab and isinstance(lab[0], int) and lab[1] is f and q.id in g.reachable_from(g.entry) and first[0].id in g.reachable_from(q):
-                # only conditions that can skip the insertion
-                other = [s for (s, l2) in p.succ if s is not q]
-                if any(first[0].id not in g.reachable_from(o) for o in other):
-                    conds.append((lab[0], lab[2]))
-    refused = None
-    for (c, want) in conds:
-        core, _pol = norm_cond(f, c)
-        cn = f.nodes[core]
-        if cn['k'] == 'call' and strip_targs(cn.get('c', '')).rsplit('::', 1)[-1].startswith('IsValid'):
-            continue
-        v = _eval_with_locals(f, c, pins)
-        if v is not want:
-            refused = (c, v)
-    ck.verdict(refused is None, rule, f, 'Set:update-never-refused', first[0].n, 'the new pair is inserted whenever the key already exists' if refused is None else
-               'with the key already present the condition guarding the insertion is not definitely true: an update of an existing key can be refused (e.g. on a list that already holds 32 members)')
+    for n in f.nodes:
+        if n['k'] == 'call' and strip_targs(n.get('c', '')).rsplit('::', 1)[-1].startswith('IsValid'):
+            pins[n['i']] = True
+    rets = [r for r in g.returns() if r.ctx is g.root_ctx]
+    pth = feasible_reach(g, [g.entry], rets, avoid=first, pins=pins)
+    ck.verdict(pth is None, rule, f, 'Set:update-never-refused', first[0].n, 'the new pair is inserted whenever the key already exists' if pth is None else
+               'with the key already present a feasible path returns without inserting the new pair: an update of an existing key can be refused (e.g. on a list that already holds 32 members)',
+               path=None if pth is None else g.describe_path(pth))
 
 
 def rule_r4(ck, prog, rule='C14.R4'):
